@@ -115,6 +115,11 @@ func cmdCheck(args []string) int {
 		bo, boundedInfo = eng.runBounded(locTextHarness, *repo, *verif, *tier, seed)
 		extraObls = append(extraObls, bo...)
 	}
+	if id == "C08" {
+		var bo []*Obligation
+		bo, boundedInfo = eng.runBounded(modTextHarness, *repo, *verif, *tier, seed)
+		extraObls = append(extraObls, bo...)
+	}
 	if len(work) == 0 && len(extraObls) == 0 {
 		return toolFailure("no contract carries property " + id)
 	}
@@ -302,6 +307,20 @@ func cmdCheck(args []string) int {
 	ev.Coverage["known_finding_lines"] = kfLines
 	if id == "C14" {
 		ev.Coverage["explanation"] = "reads-frame obligations decided by a def-use walk over the typed AST of every command function that calls TryCache (no SMT): each flag/positional-derived value read after the TryCache call must occur in the encodePayload tuple list, be computed only from such values, or be the input/output path or the no-cache switch. One obligation per (command, value). Typestate half: ioDelegate.Close/Commit are verified by contract (SMT) — an uncommitted entry is removed — and per command a structural obligation shows no error return is reachable after Commit."
+	}
+	if id == "C08" {
+		for k, v := range boundedInfo {
+			ev.Coverage[k] = v
+		}
+		nb := 0
+		for _, o := range all {
+			if o.Kind == "bounded" {
+				nb++
+			}
+		}
+		ev.Coverage["bounded_obligations"] = nb
+		ev.Level = "other"
+		ev.Coverage["explanation"] = "two parts: (1) proof: Modifier.Apply of the five kinds, Segment.Resize, Regions.Resize (ghost prefix sums), the locator closures, Regions.Complement/Head/Tail, Segment.Locate are under contract and discharged by SMT for all inputs; (2) BOUNDED, not proved: the text half - every modifier within the bound stated in /verif/bounded/modifier_bounded_test.go is printed and parsed back with AsModifier, and locator strings X@M are evaluated with AsLocator against X's region resized by M (the go-pars grammars are outside the verified subset); obligations named gts.AsModifier/bounded:* are outcomes of that enumeration."
 	}
 	if id == "C06" {
 		for k, v := range boundedInfo {
